@@ -412,6 +412,95 @@ def check_exh(ck, prog):
     ck.floor("C03-EXH", 80)
 
 
+def _canon_rel(c, negate=False):
+    """(op, left text, right text) of a relational condition with `negate` applied and the variable side first."""
+    c = ex.strip(c)
+    while c is not None and c.get("k") == "un" and c["op"] == "!":
+        negate = not negate
+        c = ex.strip(c["e"])
+    if c is None or c.get("k") != "bin" or c["op"] not in ("<", "<=", ">", ">=", "==", "!="):
+        return None
+    op = c["op"]
+    if negate:
+        op = {"<": ">=", ">=": "<", ">": "<=", "<=": ">", "==": "!=", "!=": "=="}[op]
+    l, r = ex.show(c["l"]), ex.show(c["r"])
+    if l > r:
+        l, r = r, l
+        op = {"<": ">", ">": "<", "<=": ">=", ">=": "<=", "==": "==", "!=": "!="}[op]
+    return (op, l, r)
+
+
+def check_dict_siblings(ck, prog):
+    """dict_get() and dict_repeat() locate the byte `distance + 1` positions back in the circular history with the
+    same rule: index pos - distance - 1, plus (size - LZ_DICT_REPEAT_MAX) exactly when distance >= pos.  They are
+    two implementations of one interface and must agree (Engler-style sibling cross-check)."""
+    ck.rule("C03-DICTSIB", "dict_get and dict_repeat compute the source index of a match with the same wrap rule")
+    forms = {}
+    for fn in ("dict_get", "dict_repeat"):
+        f = None
+        for cand in prog.functions.get(fn, []):
+            if cand.blocks:
+                f = cand
+        if f is None:
+            raise AnalysisBroken("%s not found" % fn)
+        ck.saw_function(f)
+        base = wrap_pred = wrap_amt = None
+        if fn == "dict_get":
+            for b, i, e in f.iter_elems():
+                for x in ex.walk(e, into_refs=True):
+                    if x.get("k") == "cond":
+                        t_, f_ = ex.const_val(x["t"]), ex.const_val(x["f"])
+                        if t_ == 0:
+                            wrap_pred, wrap_amt = _canon_rel(x["c"], negate=True), ex.show(x["f"])
+                        elif f_ == 0:
+                            wrap_pred, wrap_amt = _canon_rel(x["c"]), ex.show(x["t"])
+                    if x.get("k") == "bin" and x["op"] == "+" and ex.strip(x["r"]) is not None and \
+                            ex.strip(x["r"]).get("k") in ("cond", "eref"):
+                        base = ex.show(x["l"])
+            # with a separate block structure the conditional operator becomes a branch
+            if wrap_pred is None:
+                for b in f.blocks.values():
+                    if b.term and "cond" in b.term and "distance" in ex.show(b.term["cond"]):
+                        tb = f.blocks[b.succs[0]]
+                        tv = [ex.const_val(e) for e in tb.elems if e is not None]
+                        if 0 in tv:
+                            wrap_pred = _canon_rel(b.term["cond"], negate=True)
+                            fb = f.blocks[b.succs[1]]
+                            wrap_amt = [ex.show(e) for e in fb.elems if e is not None][-1]
+                        else:
+                            wrap_pred = _canon_rel(b.term["cond"])
+                            wrap_amt = [ex.show(e) for e in tb.elems if e is not None][-1]
+                for b, i, e in f.iter_elems():
+                    for x in ex.walk(e, into_refs=False):
+                        if x.get("k") == "bin" and x["op"] == "-" and ex.show(x) == "(dict->pos - distance) - 1":
+                            base = ex.show(x)
+        else:
+            for b, i, e in f.iter_elems():
+                e_ = ex.deref(e)
+                if e_.get("k") == "decl" and e_["n"] == "back" and e_.get("init") is not None:
+                    base = ex.show(e_["init"])
+            for b in f.blocks.values():
+                if b.term and "cond" in b.term and len(b.succs) == 2:
+                    tb = f.blocks[b.succs[0]]
+                    adds = [ex.show(r) for e in tb.elems if e for (l, r, op, n) in ex.writes(e)
+                            if ex.show(l) == "back" and op == "+="]
+                    if adds:
+                        wrap_pred, wrap_amt = _canon_rel(b.term["cond"]), adds[0]
+        forms[fn] = (base, wrap_pred, wrap_amt)
+    a, b_ = forms["dict_get"], forms["dict_repeat"]
+
+    def norm(t):
+        return None if t is None else t.replace("(", "").replace(")", "")
+    ok = a[1] is not None and a[1] == b_[1] and norm(a[2]) == norm(b_[2]) and norm(a[0]) == norm(b_[0]) and \
+        a[1] == (">=", "dict->pos", "distance") or (a[1] == b_[1] == ("<=", "dict->pos", "distance") and
+                                                     norm(a[2]) == norm(b_[2]) and norm(a[0]) == norm(b_[0]))
+    ck.ob("C03-DICTSIB", "dict_get/dict_repeat", bool(ok), "src/liblzma/lz/lz_decoder.h",
+          "both use index %s and add %s exactly when %s" % (a[0], a[2], a[1]) if ok else
+          "dict_get() uses index %s and adds %s when %s, but dict_repeat() uses index %s and adds %s when %s: for the "
+          "boundary distance the two read different history bytes (one of them outside the buffer)" % (
+              a[0], a[2], a[1], b_[0], b_[2], b_[1]), key="DICTSIB:get-vs-repeat")
+
+
 def run(ck):
     ck.explanation = (
         "Exhaustive finite-domain abstract evaluation of the LZMA2 control-byte decision and of the pure "
@@ -439,3 +528,4 @@ def run(ck):
          {"limit": "set by decode_buffer() before every call of the LZ decoder"}),
     ])
     ck.floor("C03-DICTRESET", 5)
+    check_dict_siblings(ck, prog)
